@@ -91,10 +91,10 @@ def def_sol(formula, display=True, log=False, params={}):
         b_l[bool_eq] = b_u[bool_eq]
 
         bool_bin = (vtype == 'B')
-        lb = formula.lb
-        ub = formula.ub
-        lb[bool_bin] = 0
-        ub[bool_bin] = 1
+        lb = np.array(formula.lb)
+        ub = np.array(formula.ub)
+        lb[bool_bin] = np.maximum(lb[bool_bin], 0)
+        ub[bool_bin] = np.minimum(ub[bool_bin], 1)
 
         integrality = np.zeros(A.shape[1])
         integrality[vtype != 'C'] = 1
